@@ -22,6 +22,10 @@ type Verifier struct {
 	C        *Contracts
 	ST       *sortTable
 	Assumed  map[string]bool // callees used with the default (havoc, assumed no-panic) contract
+	ContractUsed map[string]bool // non-extern contracts applied at call sites
+	AssumeFrames []string        // per property: callees (substring of the key) assumed to modify nothing that existed before the call
+	FrameAssumed map[string]bool
+	frameContracts map[string]*FuncContract
 	ExternU  map[string]bool // extern contracts actually applied
 	Warnings []string
 	Sweep    bool // no contract needed: requires true, safety obligations only
@@ -42,7 +46,7 @@ type Verifier struct {
 }
 
 func newVerifier(P *Program, C *Contracts) *Verifier {
-	return &Verifier{P: P, C: C, ST: newSortTable(), Assumed: map[string]bool{}, ExternU: map[string]bool{},
+	return &Verifier{P: P, C: C, ST: newSortTable(), Assumed: map[string]bool{}, ContractUsed: map[string]bool{}, FrameAssumed: map[string]bool{}, frameContracts: map[string]*FuncContract{}, ExternU: map[string]bool{},
 		globals: map[*ssa.Global]string{}, strConst: map[string]string{"": "str_empty"}, ufDecl: map[string]bool{}, GlobalsUsed: map[string]bool{}, autoOff: map[string]bool{}, TypeInvUsed: map[string]bool{}}
 }
 
